@@ -35,7 +35,7 @@ func vIP(size int) net.IP {
 func vIPList(n int) []net.IP {
 	var out []net.IP
 	for i := 0; i < n; i++ {
-		out = append(out, vIP([]int{4, 16, 5}[vInt(0, 1+vTier())]))
+		out = append(out, vIP([]int{4, 16, 5}[vInt(0, 1)]))
 	}
 	return out
 }
@@ -168,12 +168,12 @@ func vCollect(r ResolveResult, network string, stopAfter int) []Target {
 // verifC15Targets: symbolic result (<= 2 HTTPS records, thorough 3), network,
 // early termination; yielded sequence == reference; purity; repeatability.
 func verifC15Targets() {
-	nh := vInt(0, 2+vTier())
-	r := ResolveResult{Port: []uint16{443, 80, 8443, 0}[vInt(0, 1+2*vTier())]}
+	nh := vInt(0, 2)
+	r := ResolveResult{Port: []uint16{443, 80, 8443, 0}[vInt(0, 1+vTier())]}
 	r.Address = vIPList(2 * vInt(0, 1))
 	r.Additional = map[string][]net.IP{}
 	if vBool() {
-		r.Additional["t1"] = vIPList(1 + vTier())
+		r.Additional["t1"] = vIPList(1)
 	}
 	for i := 0; i < nh; i++ {
 		pr := vUint16()
@@ -189,7 +189,7 @@ func verifC15Targets() {
 		// ALPN with one spare capacity slot, as slices produced by append usually have
 		na := (i + 1) % 3
 		if vTier() > 0 {
-			na = vInt(0, 2)
+			na = vInt(0, 1)
 		}
 		al := make([]string, na, na+1)
 		for j := range al {
@@ -208,7 +208,7 @@ func verifC15Targets() {
 	network := []string{"tcp", "tcp4", "udp6", "tcp6", "udp", "udp4"}[vInt(0, 2+3*vTier())]
 	before := vSnapshot(r)
 	want := vRefTargets(r, network)
-	stop := vInt(0, 1+2*vTier()) // 0: never stop early
+	stop := vInt(0, 1+vTier()) // 0: never stop early
 	got := vCollect(r, network, stop)
 	n := len(want)
 	if stop > 0 && stop < n {
